@@ -433,7 +433,9 @@ class SolverWrapper:
             only if the continuous variable is at least 1 whenever the integer variable is not 0.
         """
 
-        num_bits = ceil(log2((ub if integer_ub is None else integer_ub) + 1))
+        # (the bound of the integer variable as a Python float: `+ 1` on a fixed-width numpy scalar wraps around - np.uint8(255) + 1 = 0,
+        # a math domain error - and np.float32(2**24) + 1 is 2**24, one bit short)
+        num_bits = ceil(log2(float(ub if integer_ub is None else integer_ub) + 1))
         bits = list(range(num_bits))
 
         binary_vars = self.add_variables(
